@@ -9,7 +9,7 @@
 // CEQ_TREE_VERSION *and* the version comment at the top of each including .cpp.
 #ifndef VERIF_CEQ_TREE_H
 #define VERIF_CEQ_TREE_H
-#define CEQ_TREE_VERSION 4
+#define CEQ_TREE_VERSION 5
 #include "Simbody.h"
 #include "hcommon.h"
 #include <memory>
@@ -369,7 +369,7 @@ inline void finishTopology(Model& M, vh::Rng& g, bool allowEuler = true) {
     M.system.realizeModel(M.state);
 }
 
-inline double maxAbs(const Vector& v) { double m = 0; for (int i = 0; i < v.size(); ++i) { double a = std::abs(v[i]); if (!(a <= m)) m = a; } return m; } // NaN propagates
+inline double maxAbs(const Vector& v) { double m = 0; for (int i = 0; i < v.size(); ++i) { double a = std::abs(v[i]); if (std::isnan(a)) return NAN; if (a > m) m = a; } return m; } // NaN propagates
 inline Vector rvector(vh::Rng& g, int n, double a = 1.0) { Vector v(n); for (int i = 0; i < n; ++i) v[i] = g.range(-a, a); return v; }
 
 } // namespace ceq
